@@ -16,9 +16,11 @@ __ebd_read_line() {
 }
 
 # Read a line into an array using a bell char as a delimiter since the null char
-# can't be assigned to variables.
+# can't be assigned to variables. The line is read raw (-r): a backslash in a
+# message must not be dropped nor, at the end of the line, join the reply with
+# the line sent for the next request.
 __ebd_read_array() {
-	IFS=$'\07' read -u ${PKGCORE_EBD_READ_FD} -a $1
+	IFS=$'\07' read -r -u ${PKGCORE_EBD_READ_FD} -a $1
 	[[ $? -ne 0 ]] && \
 		die "coms error in ${PKGCORE_EBD_PID}, read_array $@ failed"
 }
